@@ -35,6 +35,8 @@ type ActC09 struct {
 type CaseC09 struct {
 	DBs  []DBC09  `json:"dbs"`
 	Acts []ActC09 `json:"acts"`
+	// NoRepl: the instance under test opens its databases with replication off (entries reach them by Sync only)
+	NoRepl bool `json:"no_repl,omitempty"`
 }
 
 func genC09(rt *rapid.T) CaseC09 {
@@ -54,6 +56,7 @@ func genC09(rt *rapid.T) CaseC09 {
 			N:    rapid.IntRange(1, 4).Draw(rt, "n"),
 		})
 	}
+	c.NoRepl = rapid.IntRange(0, 3).Draw(rt, "noRepl") == 0
 	return c
 }
 
@@ -88,6 +91,9 @@ func execC09(c CaseC09) *Outcome {
 	}
 	addrs := make([]string, n)
 	shared0 := &orbitdb.CreateDBOptions{}
+	if c.NoRepl {
+		shared0.Replicate = &no
+	}
 	sameSig := map[string]bool{}
 	for d, db := range c.DBs {
 		var list []string
@@ -198,6 +204,9 @@ func execC09(c CaseC09) *Outcome {
 	nonTrivial := false
 	for ai, a := range c.Acts {
 		d := a.DB % n
+		if c.NoRepl && (a.Kind == "racewrite" || a.Kind == "exchange2") {
+			a.Kind = "replicate" // no topic and no head exchange without replication: entries arrive by Sync
+		}
 		other := -1 // a second database touched by the action (racewrite)
 		before := make([]dbSnap, n)
 		for i := 0; i < n; i++ {
@@ -388,6 +397,9 @@ func execC09(c CaseC09) *Outcome {
 			}
 		}
 		o.Labels = append(o.Labels, "act:"+a.Kind)
+		if c.NoRepl {
+			o.Labels = append(o.Labels, "replication-off")
+		}
 	}
 	o.NonTrivial = nonTrivial
 	return o
